@@ -19,3 +19,33 @@ Theorem C14_ctor_iff : forall O raw T, as_symbols O raw = Ok T -> (forall e, In 
   (new_licensing O raw = ValueErr <-> ambiguous O T) /\ (new_licensing O raw = Ok T <-> ~ ambiguous O T).
 Proof. exact ctor_iff. Qed.
 Print Assumptions C14_ctor_iff.
+
+(* without the premise on the keys: a table whose keys went through LicenseSymbol() (as_symbols succeeded) never has an empty
+   lower-cased key, so the constructor raises ValueError exactly for the ambiguous tables and accepts exactly the others. Two facts
+   about the interpreter's tables are premises (checked by the harness): lower-casing leaves white space as it is, and turns any
+   other character into at least one character, none of them white space. *)
+Require Import Proofs.Strings Proofs.Accepted.
+Theorem C14_ctor_decides : forall O, is_space O 32%N = true ->
+  (forall c, is_space O c = true -> lower_ch O c = [c]) ->
+  (forall c, is_space O c = false -> lower_ch O c <> [] /\ nospace O (lower_ch O c)) ->
+  forall raw T, as_symbols O raw = Ok T ->
+  (new_licensing O raw = ValueErr <-> ambiguous O T) /\ (new_licensing O raw = Ok T <-> ~ ambiguous O T).
+Proof. exact ctor_decides. Qed.
+Print Assumptions C14_ctor_decides.
+
+(* what acceptance buys: in an accepted table none of whose names holds an operator word or a parenthesis, no two names of
+   different licenses (nor a license and an operator) are stored under the same lower-cased words - every name has one owner *)
+Require Import Model.Split.
+Theorem C14_accepted_names_have_one_owner : forall O, is_space O 32%N = true ->
+  (forall c, is_space O c = true -> lower_ch O c = [c]) ->
+  (forall c, is_space O c = false -> lower_ch O c <> [] /\ nospace O (lower_ch O c)) ->
+  (forall c, In c [97; 110; 100; 111; 114; 119; 105; 116; 104; 40; 41]%N -> is_space O c = false /\ lower_ch O c = [c]) ->
+  forall T : list entry,
+  (forall n v, In (n, v) (flat_map (entry_adds O) T) -> forall w, In w (lwords O n) -> is_keyword_str w = false) ->
+  (forall e, In e T -> mk_key O (ekey e) = Ok (ekey e)) ->
+  validate_symbols_err O T = false ->
+  forall n1 v1 n2 v2,
+  In (n1, v1) (keyword_adds ++ flat_map (entry_adds O) T) -> In (n2, v2) (keyword_adds ++ flat_map (entry_adds O) T) ->
+  lwords O n1 <> [] -> lwords O n1 = lwords O n2 -> v1 = v2.
+Proof. exact accepted_names_unambiguous. Qed.
+Print Assumptions C14_accepted_names_have_one_owner.
